@@ -69,6 +69,17 @@ MOD = {
     "bad2": "model {n} Real x equation x = 1; end {n}",
     "latin1": "model {n} Real x; // café\n equation x = 1; end {n};",
 }
+CONNLIB = ("package {n} connector Port Real p; flow Real q; end Port; "
+           "model Pipe Port a; Port b; parameter Real k = 2.0; equation a.q + b.q = 0; a.q = k * (a.p - b.p); end Pipe; "
+           "model Long extends Pipe; Real len; equation len = 2 * k; end Long; "
+           "model Network Pipe first(k = 3.0); Pipe second; Real inlet; equation connect(first.b, second.a); "
+           "first.a.p = inlet; inlet = 1.0; second.b.p = 0.0; end Network; end {n};")
+CONNFLAT = {
+    "Port": "connector {p}Port Real p; flow Real q; end {p}Port;",
+    "Pipe": "model {p}Pipe {p}Port a; {p}Port b; parameter Real k = 2.0; equation a.q + b.q = 0; a.q = k * (a.p - b.p); end {p}Pipe;",
+    "Net": "model {p}Net {p}Pipe first(k = 3.0); {p}Pipe second; Real inlet; equation connect(first.b, second.a); "
+           "first.a.p = inlet; inlet = 1.0; second.b.p = 0.0; end {p}Net;",
+}
 GOODKINDS = ["good", "good", "uses", "ext", "pkg"]
 # -O strings.  Which spellings the tool accepts is implementation-defined and outside the property, so only the two
 # clear classes are classified by construction; the ambiguous spellings are classified by asking the implementation
@@ -104,6 +115,7 @@ def gen_world(rng, wid):
 
     libs = ["libA", "libB"]
     goods = {}
+    chains = []      # [used model, model that uses it] with the PATHs that list both
     for d in libs:
         g = add(d, "good")
         goods[d] = [g]
@@ -112,7 +124,9 @@ def gen_world(rng, wid):
             if k in ("uses", "ext"):
                 # mostly a dependency in the same directory; sometimes across libraries
                 dd = d if rng.random() < 0.75 or d == libs[0] else libs[0]
-                add(d, k, dep=rng.choice(goods[dd]))
+                dep = rng.choice(goods[dd])
+                u = add(d, k, dep=dep)
+                chains.append({"paths": sorted(set([d, dd])), "models": [dep, u]})
             else:
                 n = add(d, k)
                 if k == "good":
@@ -131,6 +145,29 @@ def gen_world(rng, wid):
         add("broken", "latin1")
     if rng.random() < 0.25:
         add("libB/attic", "bad")
+    # models with connector components, inside a package (one file) and as top-level classes (one file each)
+    ln = name("Lib")
+    files["conn/%s.mo" % ln] = ["good", CONNLIB.format(n=ln)]
+    for m in ("Pipe", "Long", "Network"):
+        models.setdefault("%s.%s" % (ln, m), "good")
+    chains.append({"paths": ["conn"], "models": [ln + ".Pipe", ln + ".Network"]})
+    chains.append({"paths": ["conn"], "models": [ln + ".Pipe", ln + ".Long"]})
+    cp = name("C")
+    for part, text in CONNFLAT.items():
+        files["conn/%s%s.mo" % (cp, part)] = ["good", text.format(p=cp)]
+    models.setdefault(cp + "Pipe", "good")
+    models.setdefault(cp + "Net", "good")
+    chains.append({"paths": ["conn"], "models": [cp + "Pipe", cp + "Net"]})
+    # the same model file in 2..5 directories (candidates for the model directory of -t casadi)
+    rn = name("R")
+    nrep = rng.choice([2, 3, 3, 4, 5])
+    for i in range(nrep):
+        files["site%d/%s.mo" % (i, rn)] = ["good", MOD["good"].format(n=rn, g="")]
+    models.setdefault(rn, "good")
+    on = name("G")
+    files["site0/%s.mo" % on] = ["good", MOD["good"].format(n=on, g="")]
+    models.setdefault(on, "good")
+    replicas = {"model": rn, "other": on, "n": nrep}
     # same file name in two directories, different content: the second one is broken, or defines another model
     twins = []
     for da, db, second in (("core", "draft", "bad"), ("core", "vendor", "other")):
@@ -147,12 +184,14 @@ def gen_world(rng, wid):
             twins.append({"a": "%s/%s.mo" % (da, n), "b": "%s/%s.mo" % (db, n), "second": "other", "models": [v, n]})
     dirs = ["empty", "out"]
     blockers = []
-    if rng.random() < 0.5:
-        m = rng.choice(sorted(models))
-        blockers.append(m)
-        dirs.append("out/%s.py" % m)
+    # output files that cannot be written: the name is taken by a directory
+    for d in libs:
+        if rng.random() < 0.75:
+            m = rng.choice(goods[d])
+            blockers.append(m)
+            dirs.append("out/%s.py" % m)
     return {"id": wid, "files": files, "dirs": dirs, "other": {"empty/notes.txt": "no models here\n", "README.txt": "x\n"},
-            "models": models, "blockers": blockers, "twins": twins}
+            "models": models, "blockers": blockers, "twins": twins, "chains": chains, "replicas": replicas}
 
 
 def materialise(ctx, world):
@@ -255,7 +294,7 @@ def gen_invocation(rng, world, stream):
     good_files = [p for p, (k, _) in files.items() if k not in ("bad", "bad2", "latin1")]
     bad_files = [p for p, (k, _) in files.items() if k in ("bad", "bad2")]
     latin = [p for p, (k, _) in files.items() if k == "latin1"]
-    inv = {"paths": [], "models": [], "target": None, "options": [], "outdir": None, "verbose": rng.choice([0, 0, 0, 1, 2]),
+    inv = {"paths": [], "models": [], "target": None, "options": [], "outdir": None, "verbose": rng.choice([0, 0, 1, 2, 2]),
            "defect": None}
     r = rng.random()
     # ---- PATHs
@@ -277,7 +316,7 @@ def gen_invocation(rng, world, stream):
     inv["paths"] = paths
     kind = stream
     if stream == "main":
-        kind = rng.choice(["models"] * 6 + ["parse"] * 2 + ["usage"] * 3 + ["argparse"] * 2 + ["nofiles"] + ["twins"] * 2)
+        kind = rng.choice(["models"] * 6 + ["parse"] * 2 + ["usage"] * 3 + ["argparse"] * 2 + ["nofiles"] + ["twins"] * 2 + ["deporder"] * 3 + ["replicas"] * 3)
     inv["kind"] = kind
     # ---- target and models
     inv["target"] = rng.choice([None, None, "sympy", "casadi", "casadi"])
@@ -322,6 +361,10 @@ def gen_invocation(rng, world, stream):
                 inv["options"].insert(rng.randint(0, len(inv["options"])), rng.choice(MALFORMED if rng.random() < 0.75 else AMBIGUOUS))
         if rng.random() < 0.3:   # usage errors hide later-stage errors
             inv["paths"].append("broken")
+        if rng.random() < 0.2:   # ... but not argument errors: -t without -m stays status 2
+            inv["defect"] = "target-without-model"
+            inv["models"] = []
+            inv["target"] = rng.choice(["sympy", "casadi"])
     elif kind == "parse":
         if inv["target"] == "casadi":
             inv["target"] = None
@@ -352,6 +395,30 @@ def gen_invocation(rng, world, stream):
         if inv["target"]:
             nm2 = max(nm2, 1)
         inv["models"] = [rng.choice(tw["models"]) if rng.random() < 0.8 else tw["models"][0] for _ in range(nm2)]
+    elif kind == "deporder" and world.get("chains"):
+        # a model requested before / after / together with a model that uses it, or twice, in one call
+        ch = rng.choice(world["chains"])
+        dep, user = ch["models"]
+        inv["paths"] = list(ch["paths"])
+        rng.shuffle(inv["paths"])
+        inv["target"] = rng.choice([None, None, None, None, "sympy"])
+        inv["outdir"] = "out" if inv["target"] else rng.choice(["out", None])
+        inv["models"] = rng.choice([[dep, user], [dep, user], [user, dep], [dep, dep], [dep, user, dep], [dep, dep, user],
+                                    [user, user], [dep, user, user]])
+    elif kind == "replicas" and world.get("replicas"):
+        # 1..n directories that each hold a file named <Model>.mo
+        rp = world["replicas"]
+        j = min(rp["n"], rng.choice([1, 2, 3, 3, 4, 5, 5]))
+        sites = ["site%d" % i for i in range(rp["n"])]
+        inv["paths"] = rng.sample(sites, j)
+        if rng.random() < 0.3:
+            inv["paths"] = ["site%d/%s.mo" % (int(p[4:]), rp["model"]) if rng.random() < 0.5 else p for p in inv["paths"]]
+        inv["target"] = rng.choice(["casadi", "casadi", "casadi", None, "sympy"])
+        inv["outdir"] = "out" if inv["target"] == "sympy" else rng.choice(["out", None])
+        ms = [rp["model"]]
+        for _ in range(rng.choice([0, 0, 1, 2])):
+            ms.insert(rng.randint(0, len(ms)), rng.choice([rp["model"], rp["other"]]))
+        inv["models"] = ms
     elif kind == "nofiles":
         inv["paths"] = rng.choice([["empty"], ["README.txt"], ["empty", "empty/notes.txt"], ["out"]])
         if inv["target"] == "casadi" or rng.random() < 0.5:
@@ -380,9 +447,10 @@ def gen_invocation(rng, world, stream):
         failing = sorted(n for n in lib if models.get(n) in FAILKINDS + SYMPYBAD) + ["Nope"] + \
             [b for b in world["blockers"] if b in lib]
         okm = sorted(n for n in lib if models.get(n) in ("good", "pkg"))
-        ms = [rng.choice(failing)]
+        blocked = [b for b in world["blockers"] if b in lib]
+        ms = [rng.choice(blocked) if blocked and rng.random() < 0.4 else rng.choice(failing)]
         for _ in range(rng.choice([0, 1, 2])):
-            ms.insert(rng.randint(0, len(ms)), rng.choice(failing + okm + okm))
+            ms.insert(rng.randint(0, len(ms)), rng.choice(failing + blocked + okm + okm))
         inv["models"] = ms
     elif kind == "nomatch":         # C26-F3 input class
         inv["target"] = "casadi"
